@@ -949,6 +949,46 @@ func (ce *cenv) pseudo(name string, x *ast.CallExpr) (Val, bool) {
 			t = app("select", t, arg(i).L[0])
 		}
 		return boolVal(t), true
+	case "calls": // calls(f): how many times the function-typed parameter f has been called
+		id := x.Args[0].(*ast.Ident)
+		key := "X|calls." + id.Name
+		ex.registerKey(key, sInt)
+		return intVal(ex.heapGet(ce.st, key, sInt)), true
+	case "lastret": // lastret(f, i): i-th result of the most recent call through function-typed parameter f
+		id := x.Args[0].(*ast.Ident)
+		fv, ok := ce.lookupIdentName(id.Name)
+		if !ok {
+			ce.fail(x, "unknown function parameter")
+		}
+		sig, ok := fv.T.Underlying().(*types.Signature)
+		if !ok {
+			ce.fail(x, "lastret of a non-function")
+		}
+		idx, _ := strconv.Atoi(types.ExprString(x.Args[1]))
+		rt := sig.Results().At(idx).Type()
+		ls := leaves(rt)
+		v := Val{T: rt, L: make([]string, len(ls))}
+		for j, l := range ls {
+			rk := fmt.Sprintf("X|result.%s.%d.%d", id.Name, idx, j)
+			ex.registerKey(rk, l.Sort)
+			v.L[j] = ex.heapGet(ce.st, rk, l.Sort)
+		}
+		return v, true
+	case "lastarg": // lastarg(fn, param): argument passed for `param` in the most recent contract call of fn
+		fn := types.ExprString(x.Args[0])
+		pn := x.Args[1].(*ast.Ident).Name
+		info, ok := ex.lastArgTypes[fn+"."+pn]
+		if !ok {
+			ce.fail(x, "no recorded call of "+fn+" with parameter "+pn)
+		}
+		ls := leaves(info)
+		v := Val{T: info, L: make([]string, len(ls))}
+		for j, l := range ls {
+			rk := fmt.Sprintf("X|lastarg.%s.%s.%d", fn, pn, j)
+			ex.registerKey(rk, l.Sort)
+			v.L[j] = ex.heapGet(ce.st, rk, l.Sort)
+		}
+		return v, true
 	case "now": // ghost clock
 		v, _ := ex.ghostGet(ce.st, "clock")
 		return v, true
